@@ -686,6 +686,66 @@ def msort(vals):
     return sorted(json.dumps(v) for v in vals)
 
 
+
+# ------------------------------------------------------------------ probe: elements valued None
+PROBES = [("S: A+;\nA: 'a' | 'b';", ""), ("S: A+[c];\nA: 'a' | 'b';\nterminals\nc: ',';", ","),
+          ("S: A*;\nA: 'a' | 'b';", "")]
+
+
+def probe_none(ctx, st):
+    """x+ / x* / x+[sep] over elements whose user action returns None: impl vs Coq eval vs the
+    documented 'list of matches'"""
+    from parglare import Grammar, Parser
+    from lib import impl
+    cases = []
+    meta = []
+    for text, sep in PROBES:
+        g = Grammar.from_string(text)
+        acts_user = {"A": [lambda _, n: n[0], lambda _, n: None]}
+        with impl.quiet():
+            p = Parser(g, actions=acts_user)
+        g2 = Grammar.from_string(text)
+        with impl.quiet():
+            pt = Parser(g2, build_tree=True)
+        gi = impl.GInfo(g2)
+        d = dump_grammar(g2)
+        acts = [0] + [pr[6] for pr in d["prods"]]
+        k = 0
+        for i, pr in enumerate(d["prods"]):
+            if pr[0] == "A":
+                acts[i + 1] = 4 if k == 0 else 5
+                k += 1
+        for n in range(1, 5):
+            for tup in itertools.product("ab", repeat=n):
+                w = sep.join(tup)
+                with impl.time_limit(10):
+                    v = _canon(p.parse(w))
+                    t = impl.node_sx(pt.parse(w), gi)
+                cases.append((135, [acts, t]))
+                meta.append((text, w, tup, v))
+    outs = common.model_run(cases)
+    for (text, w, tup, v), o in zip(meta, outs):
+        st["probe_none_cases"] = st.get("probe_none_cases", 0) + 1
+        mv = val_py(o, w)
+        rep = {"grammar": text, "actions": "A = [lambda _, n: n[0], lambda _, n: None]", "input": w}
+        if mv != v:
+            ctx.violation("built-in collect actions: impl returns %s, model eval %s" % (json.dumps(v), json.dumps(mv)),
+                          rep, no_input=True, key="probe-diff")
+            continue
+        want = [c if c == "a" else None for c in tup]
+        if v != want:
+            dropped = want[:1] + [x for x in want[1:] if x is not None]
+            if v == dropped:
+                st["finding_instances"]["KF-C13-collect-drops-none"] = \
+                    st["finding_instances"].get("KF-C13-collect-drops-none", 0) + 1
+                ctx.known_finding("KF-C13-collect-drops-none",
+                                  "x+ returns fewer values than matches when an element's value is None "
+                                  "(e.g. S: A+ on 'bbb' gives [None])")
+            else:
+                ctx.violation("x+/x* result %s is not the list of matches %s" % (json.dumps(v), json.dumps(want)),
+                              rep, key="probe-list")
+
+
 # ------------------------------------------------------------------ run
 def run(ctx):
     cases = gen_cases(ctx)
@@ -938,8 +998,9 @@ def run(ctx):
                             else:
                                 ctx.violation("greedy: expected the single maximal-munch result %s, got %s"
                                               % (want, json.dumps(s[1])), rep2, key="greedy-munch")
+    probe_none(ctx, st)
     cov = {
-        "evaluations": st["parses_compared"] + st["dump_compared"],
+        "evaluations": st["parses_compared"] + st["dump_compared"] + st.get("probe_none_cases", 0),
         "distinct_nontrivial": len(distinct),
         "rule": "curated witnesses + seeded random PG ASTs (1-3 rules, nested groups <= 2, ?,*,+ on terminals, "
                 "inline strings, rules and groups, separators that are terminals or rules, greedy family, "
